@@ -22,6 +22,9 @@ use indexmap::IndexSet;
 
 use modular_bitfield::prelude::*;
 
+#[cfg(feature = "verif_hooks")]
+use crate::machine::verif_hooks as vh;
+
 #[bitfield]
 #[repr(u64)]
 #[derive(Copy, Clone, Debug)]
@@ -207,6 +210,11 @@ fn arc_atom_table() -> Option<Arc<AtomTable>> {
 impl RawBlockTraits for AtomTable {
     #[inline]
     fn init_size() -> usize {
+        #[cfg(feature = "verif_hooks")]
+        if let Some(n) = crate::machine::verif_hooks::atom_table_init_size() {
+            return n;
+        }
+
         ATOM_TABLE_INIT_SIZE
     }
 
@@ -320,6 +328,9 @@ impl Atom {
         } else {
             let atom_table =
                 arc_atom_table().expect("We should only have an Atom while there is an AtomTable");
+
+            #[cfg(feature = "verif_hooks")]
+            crate::machine::verif_hooks::yield_point(crate::machine::verif_hooks::site::AS_PTR, 0);
 
             AtomTableRef::try_map(atom_table.inner.read(), |buf| unsafe {
                 let ptr = buf
@@ -451,6 +462,9 @@ impl InnerAtomTable {
 impl AtomTable {
     #[inline]
     pub fn new() -> Result<Arc<Self>, AllocError> {
+        #[cfg(feature = "verif_hooks")]
+        crate::machine::verif_hooks::yield_point(crate::machine::verif_hooks::site::TABLE_NEW, 0);
+
         let upgraded = global_atom_table().read().unwrap().upgrade();
         // don't inline upgraded, otherwise temporary will be dropped too late in case of None
         if let Some(atom_table) = upgraded {
@@ -492,6 +506,9 @@ impl AtomTable {
         }
 
         loop {
+            #[cfg(feature = "verif_hooks")]
+            vh::yield_point(vh::site::BUILD_ENTER, 0);
+
             let mut block_epoch = atom_table.inner.read();
             let mut table_epoch = block_epoch.table.read();
 
@@ -499,8 +516,19 @@ impl AtomTable {
                 return atom;
             }
 
+            #[cfg(feature = "verif_hooks")]
+            vh::yield_point(vh::site::AFTER_LOOKUP, 0);
+            #[cfg(feature = "verif_hooks")]
+            vh::yield_point(
+                vh::site::BEFORE_LOCK,
+                &atom_table.update as *const Mutex<()> as usize,
+            );
+
             // take a lock to prevent concurrent updates
             let update_guard = atom_table.update.lock().unwrap();
+
+            #[cfg(feature = "verif_hooks")]
+            vh::yield_point(vh::site::AFTER_LOCK, 0);
 
             let is_same_allocation = RcuRef::same_epoch(&block_epoch, &atom_table.inner.read());
             let is_same_atom_list = RcuRef::same_epoch(&table_epoch, &block_epoch.table.read());
@@ -512,6 +540,9 @@ impl AtomTable {
                 continue;
             }
 
+            #[cfg(feature = "verif_hooks")]
+            vh::yield_point(vh::site::AFTER_RECHECK, 0);
+
             let size = mem::size_of::<AtomHeader>() + string.len();
             let size = size.next_multiple_of(AtomTable::align());
 
@@ -520,6 +551,9 @@ impl AtomTable {
                     let ptr = block_epoch.block.alloc(size);
 
                     if ptr.is_null() {
+                        #[cfg(feature = "verif_hooks")]
+                        vh::yield_point(vh::site::BEFORE_GROW, 0);
+
                         // garbage collection would go here
                         let new_block = block_epoch.block.grow_new().unwrap();
                         let new_table = Arcu::new(table_epoch.clone(), GlobalEpochCounterPool);
@@ -528,6 +562,10 @@ impl AtomTable {
                             table: new_table,
                         };
                         atom_table.inner.replace(new_alloc);
+
+                        #[cfg(feature = "verif_hooks")]
+                        vh::yield_point(vh::site::AFTER_BLOCK_REPLACE, 0);
+
                         block_epoch = atom_table.inner.read();
                         table_epoch = block_epoch.table.read();
                     } else {
@@ -539,6 +577,9 @@ impl AtomTable {
                 let len_offset = block_epoch.block.get_offset(len_ptr);
 
                 write_to_ptr(string, len_ptr);
+
+                #[cfg(feature = "verif_hooks")]
+                vh::yield_point(vh::site::AFTER_WRITE, 0);
 
                 let atom = AtomCell::new()
                     .with_name((STRINGS.len() + len_offset) as u64)
@@ -552,6 +593,9 @@ impl AtomTable {
                 let mut table = table_epoch.clone();
                 table.insert(atom.into());
                 block_epoch.table.replace(table);
+
+                #[cfg(feature = "verif_hooks")]
+                vh::yield_point(vh::site::AFTER_TABLE_REPLACE, 0);
 
                 // explicit drop to ensure we don't accidentally drop it early
                 drop(update_guard);
